@@ -66,13 +66,16 @@ def run(tier):
                "instant, enumerated by TLC on OpsSeq.tla; each replayed in every call form (function, piped operator, "
                "list / generator iterable, scripted multi-run source) with and without the probe wrapper; non-trivial = "
                "at least two source subscriptions, or a listed source never subscribed, or a dispose")
-    total, fails = sc.seq_replay(main, procs=8)
-    ck.impl += total
-    for f in fails:
-        ck.fail(f)
-    # C09 dimension (a raising mapper / factory / handler / condition): judged by the same machinery, but a
-    # failure there contradicts C09, not C10 - it is recorded in the evidence and printed as a NOTE
-    n_side, side_fails = sc.seq_replay(side, rich=False, procs=8)
+    # one worker pool for both parts (forking a pool is the expensive step on a loaded box); the C09 dimension
+    # (a raising mapper / factory / handler / condition) is judged by the same machinery, but a failure there
+    # contradicts C09, not C10 - it is recorded in the evidence and printed as a NOTE
+    n_all, all_fails = sc.seq_replay(main + [(g[0], g[1], False) for g in side], procs=8)
+    side_fails = [f for f in all_fails if f["has_fault"]]
+    n_side = sum(len(sc.seq_variants(g[0], False)) for g in side)
+    ck.impl += n_all - n_side
+    for f in all_fails:
+        if not f["has_fault"]:
+            ck.fail(f)
     by = {}
     for f in side_fails:
         key = f"{f['op']}:{f['reason_kind']}"
